@@ -4,7 +4,7 @@ worktree (suite passes with it, demo fails with it and passes without), run the 
 it under /verif/seeded/<ID>/ (patch.diff, demo, meta.json)."""
 import json, os, shutil, subprocess, sys, tempfile, time
 ID = sys.argv[1]; checks = sys.argv[2:] or [ID.split('-')[0]]
-src = sys.argv[1] if os.path.isdir(sys.argv[1]) else "/tmp/mut/" + ID
+src = os.environ.get("SEED_SRC") or "/tmp/mut/" + ID
 env = dict(os.environ, GOFLAGS="-mod=mod", GOPROXY="off", GOSUMDB="off", GOTOOLCHAIN="local")
 def sh(cmd, cwd=None, timeout=1800):
     p = subprocess.run(cmd, shell=True, cwd=cwd, env=env, stdout=subprocess.PIPE, stderr=subprocess.STDOUT, text=True, timeout=timeout)
